@@ -2,8 +2,8 @@
 //! Everything here is deterministic and exactly representable: axes and data are dyadic
 //! rationals, kept as `f64` values that convert exactly to `Rat`.
 
-use crate::refm::End;
 use crate::rat::Rat;
+use crate::refm::End;
 
 #[derive(Clone, Debug)]
 pub struct Axis {
@@ -204,7 +204,10 @@ pub fn subsets_axes(vals: &[f64], tag: &str, min_size: usize, max_size: usize) -
         if c < min_size || c > max_size {
             continue;
         }
-        let x: Vec<f64> = (0..m).filter(|i| mask >> i & 1 == 1).map(|i| vals[i]).collect();
+        let x: Vec<f64> = (0..m)
+            .filter(|i| mask >> i & 1 == 1)
+            .map(|i| vals[i])
+            .collect();
         by_size[c].push(Axis::new(format!("{tag}#{mask:#x}"), x));
     }
     by_size.into_iter().flatten().collect()
@@ -255,6 +258,10 @@ pub fn lanes(x: &[f64], impulses: bool) -> Vec<Lane> {
         y: vec![1.0; n],
     });
     for (p, name) in [(1u32, "x"), (2, "x^2"), (3, "x^3")] {
+        // x^p is exact in f64 when x has at most 53/p significant bits
+        if x.iter().any(|&v| crate::rat::sig_bits(v) * p > 50) {
+            continue;
+        }
         let r: Vec<Rat> = xr.iter().map(|x| x.pow(p)).collect();
         if let Some(y) = all_exact(&r) {
             if y.iter().all(|v| v.abs() < 16777216.0) {
@@ -267,7 +274,9 @@ pub fn lanes(x: &[f64], impulses: bool) -> Vec<Lane> {
     }
     v.push(Lane {
         name: "alt".into(),
-        y: (0..n).map(|i| if i % 2 == 0 { 1.0 } else { -1.0 }).collect(),
+        y: (0..n)
+            .map(|i| if i % 2 == 0 { 1.0 } else { -1.0 })
+            .collect(),
     });
     let gen: Vec<f64> = (0..n)
         .map(|i| GENERIC[i % 11] * (1 + i / 11) as f64)
